@@ -50,6 +50,11 @@ pub fn run_c05(env: &mut Env) -> Outcome {
         let selected = if cfg.nla { 2 } else { 1 };
         let params = if ctx.chance("params_gen", 1, 2) { ServerParams::generate(&mut ctx, selected) } else { ServerParams::default_for(selected) };
         let mut params = params;
+        if ctx.chance("hostile_domain_params", 1, 6) {
+            let i = ctx.choose("dp_index", 8) as usize;
+            params.domain_params[i] = *ctx.pick("dp_value", &[0u32, 1, 2, 7, 8, 9, 0x7f, 0x80, 0xff, 0x100, 0xffff, 0x10000, 0x7fffffff, 0xffffffff]);
+            ctx.fault("hostile_domain_parameter");
+        }
         if ctx.chance("license_other_kind", 1, 3) {
             params.license_kind = 2 + ctx.choose("license_kind_x", 3) as u8;
         }
@@ -355,7 +360,7 @@ pub fn run_c07(env: &mut Env) -> Outcome {
             }
             (2, 0) => {
                 // special CHALLENGE shapes
-                let shape = ctx.choose("challenge_shape", 10);
+                let shape = ctx.choose("challenge_shape", 11);
                 let mut t = token.to_vec();
                 let desc;
                 match shape {
@@ -368,6 +373,17 @@ pub fn run_c07(env: &mut Env) -> Outcome {
                     4 => { desc = "avlen-beyond-buffer"; let w = mutate::challenge_fieldmap(&t); if let Some(f) = w.fields.iter().find(|f| f.name == "challenge.av.len") { t[f.off] = 0xff; t[f.off + 1] = 0xff; } }
                     5 => { desc = "unknown-av-id"; let w = mutate::challenge_fieldmap(&t); if let Some(f) = w.fields.iter().find(|f| f.name == "challenge.av.id") { let v = *ctx.pick("av_id_v", &[0x0bu16, 0x0c, 0x10, 0xffff, 0x8000]); t[f.off] = v as u8; t[f.off + 1] = (v >> 8) as u8; } }
                     6 => { desc = "empty-token"; t.clear(); }
+                    10 => {
+                        // a long list of tokens (the genuine CHALLENGE first)
+                        let n = 2 + ctx.choose("n_tokens", 40) as usize;
+                        ctx.fault("challenge_shape");
+                        ctx.key_str("many-tokens");
+                        ctx.ev("fault", format!("challenge shape: {} negoTokens", n));
+                        f2.borrow_mut().push("many-tokens".to_string());
+                        let mut toks = vec![t.clone()];
+                        for i in 1..n { toks.push(vec![i as u8; 1 + i % 5]); }
+                        return Some(crate::refsrv::cssp::build_ts_request(&crate::refsrv::cssp::TsRequest { version: 6, nego_tokens: toks, auth_info: None, pub_key_auth: None, error_code: None, client_nonce: None }));
+                    }
                     8 | 9 => {
                         // negoTokens present but an empty SEQUENCE OF (8) / an element without negoToken content (9)
                         ctx.fault("challenge_shape");
